@@ -184,7 +184,12 @@ class C07(LinksMixin, Prop):
                      "finding": "DC07b" if pre and raised == "VerifyException" else None}]
         from snaxc.dialects import accfg
         from snaxc.inference.trace_acc_state import infer_state_of
-        mod = snaxrun.parse(trace_states(case["src"]))
+        try:
+            traced = trace_states(case["src"])
+        except Exception as e:  # (cases whose impl side stopped before running the pass, e.g. outside the model's fragment)
+            return [{"what": f"accfg-trace-states raised {type(e).__name__}: {str(e)[:200]}",
+                     "finding": "DC07b" if pre and type(e).__name__ == "VerifyException" else None}]
+        mod = snaxrun.parse(traced)
         f = ac.find_func(mod)
         bad = []
 
